@@ -22,6 +22,8 @@ type Case struct {
 	H     hgen.History `json:"h"`
 	Batch []int        `json:"batch,omitempty"`
 	Every int          `json:"every,omitempty"` // mass graphs: read the whole RIB back only every n-th step
+	// ReElect (L2): the session raises its own election id after every n-th request
+	ReElect int `json:"reelect,omitempty"`
 }
 
 func setup() {
@@ -37,7 +39,7 @@ func runCase(c Case) *ev.Verdict {
 	var v *ev.Verdict
 	var tr *l1.Trace
 	if c.Level == "L2" {
-		v, tr = l2.RunHistory(c.H, l2.Opts{P: "C02", Trusted: true, Batch: c.Batch})
+		v, tr = l2.RunHistory(c.H, l2.Opts{P: "C02", Trusted: true, Batch: c.Batch, ReElect: c.ReElect})
 	} else {
 		v, tr = l1.Run(c.H, l1.Opts{P: "C02", Trusted: true, Closure: true, ObserveEvery: c.Every})
 	}
@@ -259,6 +261,9 @@ func drawGraph(rt *rapid.T) Case {
 	if rapid.IntRange(0, 4).Draw(rt, "l2?") == 0 {
 		c.Level = "L2"
 		c.Batch = []int{rapid.IntRange(1, 5).Draw(rt, "batch")}
+		if rapid.Bool().Draw(rt, "reelect?") {
+			c.ReElect = rapid.IntRange(1, 3).Draw(rt, "reelect")
+		}
 	}
 	return c
 }
